@@ -166,7 +166,7 @@ fn c04_port_r3_present_then_absent() {
 	kani::cover!(a.checked_add(1) == Some(b), "consecutive ids");
 }
 
-fn port_event_any_header(code: u8, ics: bool, open_frame: bool) -> (u8, bool) {
+fn port_event(code: u8, ics: bool, open_frame: bool, port: u8, follower: bool) {
 	let v = Version(3, 16, 0);
 	let mut store = new_port(v, Port::P2, ics);
 	let mut state = one_port_state(v, &mut store, Port::P2);
@@ -177,22 +177,35 @@ fn port_event_any_header(code: u8, ics: bool, open_frame: bool) -> (u8, bool) {
 		put_id(&mut s_a, a);
 		step(&mut state, &s_a, 0x3A);
 	}
-	// arbitrary frame id, port byte (0..=255) and follower flag
+	// arbitrary frame id and payload; the port byte and follower flag are concrete per call (a
+	// symbolic port index turns every column access into a symbolic pointer: > 19 min)
 	let mut ev: [u8; 85] = kani::any();
 	ev[0] = code;
+	ev[5] = port;
+	ev[6] = follower as u8;
 	let n = 1 + state.verif_payload_size(code).unwrap_or(1) as usize;
+	let before = state.bytes_read();
 	let res = parse_event(&ev[..n], &mut state, None);
-	let id = i32::from_be_bytes([ev[1], ev[2], ev[3], ev[4]]);
-	let out = (ev[5], ev[6] != 0);
-	kani::cover!(true, "returned");
+	if res.is_ok() {
+		assert!(state.bytes_read() >= before + 2);
+	}
 	forget(res);
-	out
+}
+
+fn nopanic_port_variants(code: u8) {
+	// P2 is the only occupied port (wire value 1) and does not hold Ice Climbers
+	port_event(code, false, true, 1, false); // well addressed, arbitrary frame id
+	port_event(code, false, true, 1, true); // follower event for a non-ICs port
+	port_event(code, false, true, 0, false); // unoccupied port
+	port_event(code, false, true, 4, false); // port number out of range
+	port_event(code, false, true, 255, true); // port number out of range, follower
+	kani::cover!(true, "reached");
 }
 
 // @verif property=C06 tier=quick mem=16 timeout=3000
-// @encodes peppi::io::slippi::de::parse_event Frame Pre arm with arbitrary frame id, port byte and follower flag
-// @symbolic 620 open frame's id and payload; the whole Frame Pre event incl. its header fields
-// @bound 3.16 state, one occupied port (P2, not Ice Climbers), one open frame, one event
+// @encodes peppi::io::slippi::de::parse_event Frame Pre arm with arbitrary frame id and a port byte / follower flag that do not fit the game
+// @symbolic 3000 open frame's id and payload; frame id and payload of the Frame Pre event (5 events)
+// @bound 3.16 state, one occupied port (P2, not Ice Climbers), one open frame; port byte in {1, 0, 4, 255} x follower flag (5 combinations, concrete)
 // @assume the port's column set is a typed stack object
 // @stub alloc::fmt::format = returns an empty String
 // @stub std::hash::RandomState::new = fixed keys
@@ -202,16 +215,13 @@ fn port_event_any_header(code: u8, ics: bool, open_frame: bool) -> (u8, bool) {
 #[kani::stub(alloc::fmt::format, format_stub)]
 #[kani::stub(std::hash::RandomState::new, random_state_stub)]
 fn c06_nopanic_pre_any_header() {
-	let (port, follower) = port_event_any_header(0x37, false, true);
-	kani::cover!(port >= 4, "port number out of range");
-	kani::cover!(port == 0, "unoccupied port");
-	kani::cover!(port == 1 && follower, "follower event on a non-ICs port");
+	nopanic_port_variants(0x37);
 }
 
 // @verif property=C06 tier=quick mem=16 timeout=3000
-// @encodes peppi::io::slippi::de::parse_event Frame Post arm with arbitrary frame id, port byte and follower flag
-// @symbolic 780 open frame's id and payload; the whole Frame Post event incl. its header fields
-// @bound 3.16 state, one occupied port (P2, not Ice Climbers), one open frame, one event
+// @encodes peppi::io::slippi::de::parse_event Frame Post arm with arbitrary frame id and a port byte / follower flag that do not fit the game
+// @symbolic 3800 open frame's id and payload; frame id and payload of the Frame Post event (5 events)
+// @bound 3.16 state, one occupied port (P2, not Ice Climbers), one open frame; port byte in {1, 0, 4, 255} x follower flag (5 combinations, concrete)
 // @assume the port's column set is a typed stack object
 // @stub alloc::fmt::format = returns an empty String
 // @stub std::hash::RandomState::new = fixed keys
@@ -221,15 +231,13 @@ fn c06_nopanic_pre_any_header() {
 #[kani::stub(alloc::fmt::format, format_stub)]
 #[kani::stub(std::hash::RandomState::new, random_state_stub)]
 fn c06_nopanic_post_any_header() {
-	let (port, follower) = port_event_any_header(0x38, false, true);
-	kani::cover!(port >= 4, "port number out of range");
-	kani::cover!(port == 1 && follower, "follower event on a non-ICs port");
+	nopanic_port_variants(0x38);
 }
 
 // @verif property=C06 tier=thorough mem=16 timeout=3000
-// @encodes peppi::io::slippi::de::parse_event Frame Post arm before any frame was opened
-// @symbolic 680 the whole Frame Post event
-// @bound 3.16 state, one occupied port, no frame yet, one event
+// @encodes peppi::io::slippi::de::parse_event Frame Pre / Frame Post arms before any frame was opened
+// @symbolic 1300 the two events
+// @bound 3.16 state, one occupied port, no frame yet, one Frame Post and one Frame Pre event
 // @assume the port's column set is a typed stack object
 // @stub alloc::fmt::format = returns an empty String
 // @stub std::hash::RandomState::new = fixed keys
@@ -239,7 +247,9 @@ fn c06_nopanic_post_any_header() {
 #[kani::stub(alloc::fmt::format, format_stub)]
 #[kani::stub(std::hash::RandomState::new, random_state_stub)]
 fn c06_nopanic_post_no_frame() {
-	let _ = port_event_any_header(0x38, false, false);
+	port_event(0x38, false, false, 1, false);
+	port_event(0x37, false, false, 1, false);
+	kani::cover!(true, "reached");
 }
 
 // @verif property=C04,C01:thorough tier=quick mem=16 timeout=3000
@@ -309,4 +319,59 @@ fn c04_port_r3_ics_both_absent() {
 	}
 	assert!(p.leader.pre.random_seed.values()[0] == u32::from_be_bytes([pre_l[7], pre_l[8], pre_l[9], pre_l[10]]));
 	kani::cover!(a == b, "rollback: same id twice");
+}
+
+// @verif property=C04 tier=thorough mem=24 timeout=3600
+// @encodes peppi::io::slippi::de::parse_event with two occupied ports: each character's events land in its own port's columns, whatever the event order
+// @symbolic 2500 frame id, payloads of 4 character events
+// @bound version 3.16.0, ports P2 and P4 occupied (slots 0 and 1), one frame, pre events in reverse port order
+// @assume state built by ParseState::verif_from_parts; column sets are a typed stack array
+// @stub alloc::fmt::format = returns an empty String
+// @stub std::hash::RandomState::new = fixed keys
+// @cbmc --max-field-sensitivity-array-size 512
+#[kani::proof]
+#[kani::unwind(8)]
+#[kani::stub(alloc::fmt::format, format_stub)]
+#[kani::stub(std::hash::RandomState::new, random_state_stub)]
+fn c04_two_ports_slot_mapping() {
+	let v = Version(3, 16, 0);
+	let mut store = core::mem::ManuallyDrop::new([
+		core::mem::ManuallyDrop::into_inner(new_port(v, Port::P2, false)),
+		core::mem::ManuallyDrop::into_inner(new_port(v, Port::P4, false)),
+	]);
+	let mut state = two_port_state(v, &mut store, [Port::P2, Port::P4]);
+	const PRE: usize = 1 + 6 + 58;
+	const POST: usize = 1 + 6 + 78;
+	let a: i32 = kani::any();
+	let mut s_a: [u8; 13] = kani::any();
+	s_a[0] = 0x3A;
+	put_id(&mut s_a, a);
+	step(&mut state, &s_a, 0x3A);
+	// P4 first, then P2
+	let mut pre4: [u8; PRE] = kani::any();
+	put_port_header(&mut pre4, 0x37, a, 3, false);
+	step(&mut state, &pre4, 0x37);
+	let mut pre2: [u8; PRE] = kani::any();
+	put_port_header(&mut pre2, 0x37, a, 1, false);
+	step(&mut state, &pre2, 0x37);
+	let mut post2: [u8; POST] = kani::any();
+	put_port_header(&mut post2, 0x38, a, 1, false);
+	step(&mut state, &post2, 0x38);
+	let mut post4: [u8; POST] = kani::any();
+	put_port_header(&mut post4, 0x38, a, 3, false);
+	step(&mut state, &post4, 0x38);
+	let mut e_a: [u8; 9] = kani::any();
+	e_a[0] = 0x3C;
+	put_id(&mut e_a, a);
+	step(&mut state, &e_a, 0x3C);
+	let f = state.frames();
+	assert!(f.ports.len() == 2);
+	assert!(f.ports[0].port == Port::P2 && f.ports[1].port == Port::P4);
+	assert!(f.ports[0].leader.pre.len() == 1 && f.ports[1].leader.pre.len() == 1);
+	assert!(f.ports[0].leader.post.len() == 1 && f.ports[1].leader.post.len() == 1);
+	assert!(f.ports[0].leader.pre.random_seed.values()[0] == u32::from_be_bytes([pre2[7], pre2[8], pre2[9], pre2[10]]));
+	assert!(f.ports[1].leader.pre.random_seed.values()[0] == u32::from_be_bytes([pre4[7], pre4[8], pre4[9], pre4[10]]));
+	assert!(f.ports[0].leader.post.character.values()[0] == post2[7]);
+	assert!(f.ports[1].leader.post.character.values()[0] == post4[7]);
+	kani::cover!(true, "reached");
 }
